@@ -181,9 +181,17 @@ fn extract_class(
         parent_names
     };
 
+    // Positions may coincide (a function is placed two further than it stood, the constructor
+    // right after the last variable): variables come first, then the constructor, then the rest
+    let rank = |stmt: &Core| match stmt {
+        Core::VarDef { .. } => 0,
+        Core::FunDef { id, .. } if id == function::python::INIT => 1,
+        Core::FunDef { .. } | Core::FunDefOp { .. } => 3,
+        _ => 2,
+    };
     let body_stmts: Vec<Core> = body_name_stmts
         .values()
-        .sorted_by_key(|(pos, _)| *pos)
+        .sorted_by_key(|(pos, stmt)| (*pos, rank(stmt)))
         .map(|(_, stmt)| stmt.clone())
         .collect();
 
